@@ -1,6 +1,15 @@
 (* C06 over the language-chain pass models: which normal-form predicate (Model/NF.v) each pass
    ESTABLISHES, for all schemas of any nesting, with the exact side condition when one is
-   needed and a refuting witness when it is dropped. *)
+   needed and a refuting witness when it is dropped.
+   WHAT IS HERE
+   - the node predicates behind nf_violations: p_union, p_enum, p_struct, p_tnull, p_optnn, p_php, ... and the
+     equations has_*_eq relating them to Model/NF.v;
+   - establishment: aete_establishes_no_anonymous_enum, astn_establishes_no_anonymous_struct,
+     dwnto_establishes_no_t_or_null, dtt_establishes_no_union, sanitize_establishes, prefix_establishes;
+   - the side condition "no union directly below a union branch" is needed: dwnto_needs_no_nested_union,
+     dtt_needs_no_nested_union (witnesses w_union_in_branch, w_union_in_array_branch);
+   - named inner loops and equations of AETE / ASTN / SENM / map_objects_res (Sections Aete, Astn, Senm), fold_left_inv,
+     any_sub_weaken, any_sub_inter_irrel. *)
 From Coq Require Import List String Bool Ascii Lia.
 From Cog Require Import Model.IR Model.Names Model.Passes Model.PassesChain Model.Process Model.NF
      Proofs.TyInd Proofs.ChainLemmas.
